@@ -574,6 +574,10 @@ def run(ctx, replay=None):
                                              'trusted_base': common.TRUSTED_BASE, 'explanation': 'build failed'}, [])
         return
     po = common.proof_obligations(ctx.prop)
+    ck = common.coqchk(ctx.prop) if ctx.tier == 'thorough' else None
+    if ck is not None and not ck['ok']:
+        path = common.write_replay(ctx, 'coqchk', {'kind': 'coqchk-failed', 'summary': ck['summary']})
+        common.violation(ctx, path, found_input=False)
     bad = common.hygiene()
     n_obl = len(po['theorems'])
     discharged = n_obl if (po['ok'] and po['all_printed']) else 0
@@ -743,7 +747,7 @@ def run(ctx, replay=None):
         'checker_cmd': 'coqc %s %s  (after ./build.sh)' % (' '.join(common.COQFLAGS), po['file']),
         'trusted_base': common.TRUSTED_BASE + [
             'Print Assumptions: ' + '; '.join('%s: %s' % (t, po['assumptions'].get(t, 'NOT PRINTED')) for t in po['theorems'])],
-        'theorems': po['theorems'], 'hygiene_hits': bad,
+        'coqchk': ({'axioms': ck['axioms'], 'ok': ck['ok']} if ck else 'thorough tier only'), 'theorems': po['theorems'], 'hygiene_hits': bad,
         'evaluations': len(progs), 'distinct_nontrivial': distinct,
         'rule': 'programs drawn by harness/gen.py from profiles %s with seed %d, solved by the real library (solve + up to 2 find_another_solution); '
                 'non-trivial = the library returned at least one solution; distinct by program text' % (cfg['profiles'], ctx.seed),
